@@ -250,7 +250,15 @@ func (r *Renderer) Value(v thriftspec.Value) error {
 			}
 			off := r.Buf.Len()
 			r.trace("WriteField(id %d delta %v type %s)", fd.ID, fd.Delta, fd.Type)
-			if err := w.WriteField(fd); err != nil {
+			if feat&thrift.UseDeltaEncoding != 0 && !fd.Delta && fd.ID <= 15 {
+				// An absolute id of at most 15 (non-ascending wire order, ids <= 0): the
+				// struct encoder never asks the Writer for this and WriteField would emit
+				// the delta form; write the long form the way WriteField does for larger ids.
+				r.Buf.WriteByte(byte(fd.Type))
+				if err := w.WriteInt16(fd.ID); err != nil {
+					return err
+				}
+			} else if err := w.WriteField(fd); err != nil {
 				return err
 			}
 			r.mark("field", off, int(f.ID))
